@@ -63,6 +63,21 @@ impl OpDesc {
     }
 }
 
+/// Ret event; `kind` classifies the shape of the raw value only: "ino" (decimal number), "none",
+/// "attr" (getattr outcome ok/ebadf), "err" (anything else: err:<errno>, panic, entries:<n>).
+fn ret_event(t: usize, op: &str, val: &str, seq: u64) -> Value {
+    let kind = if val.is_empty() {
+        "none"
+    } else if val.parse::<u64>().is_ok() {
+        "ino"
+    } else if val == "ok" || val == "ebadf" {
+        "attr"
+    } else {
+        "err"
+    };
+    json!({"e": "Ret", "t": t, "op": op, "val": val, "kind": kind, "seq": seq})
+}
+
 fn errval(e: &std::io::Error) -> String {
     format!("err:{}", e.raw_os_error().unwrap_or(-1))
 }
@@ -286,7 +301,7 @@ impl Sched {
         sl.log.lock().unwrap().push((seq, op.call_event(t, seq)));
         let val = run_op(fs, op, c);
         let seq = self.next_seq();
-        sl.log.lock().unwrap().push((seq, json!({"e": "Ret", "t": t, "op": op.op, "val": val, "seq": seq})));
+        sl.log.lock().unwrap().push((seq, ret_event(t, &op.op, &val, seq)));
         ME.with(|m| *m.borrow_mut() = None);
         sl.fl.store(FINISHED, Ordering::Release);
     }
@@ -494,7 +509,7 @@ impl Seg {
         self.events.push(op.call_event(0, self.seq));
         let v = run_op(fs, op, c);
         self.seq += 1;
-        self.events.push(json!({"e": "Ret", "t": 0, "op": op.op, "val": v, "seq": self.seq}));
+        self.events.push(ret_event(0, &op.op, &v, self.seq));
         if op.op == "lookup" || op.op == "rdp" {
             self.note(&v);
         }
@@ -584,6 +599,8 @@ fn sched_mode(args: &[String]) {
     verif_hooks::set_hook(Some(Box::new(hook)));
     let t0 = Instant::now();
     let mut tim = [0u64; 3];
+    let mut labels: std::collections::BTreeMap<String, u64> = Default::default();
+    let mut windows: std::collections::BTreeMap<String, u64> = Default::default();
     let mut timeouts = 0u64;
     let (mut nsched, mut drift_scheds, mut drift_steps, mut watchdog, mut hangs, mut mism) = (0u64, 0u64, 0u64, 0u64, 0u64, 0u64);
     for (sid, line) in lines.enumerate() {
@@ -633,6 +650,22 @@ fn sched_mode(args: &[String]) {
             // all clients are Finished (drive returned without hang): their Ret events are logged
             let (evs, ys) = s.take_events();
             seg.seq = s.seq.load(Ordering::SeqCst);
+            // coverage accounting: yield points reached, racing windows hit (per thread label successions)
+            let mut last: Vec<String> = vec![String::new(); n + 1];
+            for y in &ys {
+                let (t, l) = (y["t"].as_u64().unwrap() as usize, y["label"].as_str().unwrap().to_string());
+                *labels.entry(l.clone()).or_insert(0u64) += 1;
+                let w = match (last[t].as_str(), l.as_str()) {
+                    ("L_load", "L_probe") => Some("zero_retry"),
+                    ("L_cas", "L_probe") => Some("lookup_cas_fail"),
+                    ("F_cas", "F_load") => Some("forget_cas_retry"),
+                    _ => None,
+                };
+                if let Some(w) = w {
+                    *windows.entry(w.to_string()).or_insert(0u64) += 1;
+                }
+                last[t] = l;
+            }
             for e in evs {
                 if e["e"] == "Ret" && (e["op"] == "lookup" || e["op"] == "rdp") {
                     seg.note(e["val"].as_str().unwrap_or(""));
@@ -666,7 +699,7 @@ fn sched_mode(args: &[String]) {
     trace.flush();
     side.flush();
     println!("{}", json!({"schedules": nsched, "events": trace.n, "drift_schedules": drift_scheds, "drift_steps": drift_steps,
-        "label_mismatch": mism, "watchdog": watchdog, "watchdog_timeouts": timeouts, "hangs": hangs, "us_fs_spawn_drive": tim.to_vec(), "wall_ms": t0.elapsed().as_millis() as u64}));
+        "label_mismatch": mism, "watchdog": watchdog, "watchdog_timeouts": timeouts, "hangs": hangs, "labels": labels, "windows": windows, "us_fs_spawn_drive": tim.to_vec(), "wall_ms": t0.elapsed().as_millis() as u64}));
 }
 
 // ------------------------------------------------------------------------------------------------
@@ -731,7 +764,7 @@ fn stress_mode(args: &[String]) {
                     evs.push((s1, op.call_event(t, s1)));
                     let val = run_op(&fs2, op, c);
                     let s2 = seq2.fetch_add(1, Ordering::SeqCst) + 1;
-                    evs.push((s2, json!({"e": "Ret", "t": t, "op": op.op, "val": val, "seq": s2})));
+                    evs.push((s2, ret_event(t, &op.op, &val, s2)));
                 }
                 evs
             }).expect("spawn"));
